@@ -100,6 +100,11 @@ pub(crate) fn is_reg_num(c: char) -> bool {
     matches!(c, '0'..='7')
 }
 
+/// Test if a character ends a register or numeric literal: whitespace or the start of a comment.
+pub(crate) fn is_token_end(c: char) -> bool {
+    is_whitespace(c) || c == ';'
+}
+
 /// Test if a character is considered an LC3 identifier character.
 pub(crate) fn is_id(c: char) -> bool {
     // Non-prefixed numerical literals are considered identifiers.
@@ -148,7 +153,7 @@ impl Cursor<'_> {
                     self.take_while(is_reg_num);
                     if self.pos_in_token() == 2
                         && match self.first() {
-                            c if is_whitespace(c) => true,
+                            c if is_token_end(c) => true,
                             '\0' => true,
                             _ => false,
                         }
@@ -190,7 +195,7 @@ impl Cursor<'_> {
     fn hex(&mut self) -> Result<TokenKind> {
         let start = self.abs_pos();
         let prefix = self.pos_in_token();
-        self.take_while(|c| !is_whitespace(c));
+        self.take_while(|c| !is_token_end(c));
         let str_val = self.get_range(start..self.abs_pos());
         let value = match i16::from_str_radix(str_val, 16) {
             Ok(value) => value as u16,
@@ -218,7 +223,7 @@ impl Cursor<'_> {
     fn dec(&mut self) -> Result<TokenKind> {
         let start = self.abs_pos();
         let prefix = self.pos_in_token();
-        self.take_while(|c| !is_whitespace(c));
+        self.take_while(|c| !is_token_end(c));
         let str_val = self.get_range(start..self.abs_pos());
 
         // i16 to handle negative values
